@@ -378,10 +378,42 @@ def install_defaults():
     return n
 
 
+ENUM_MEMBERS = []  # (member, snapshot of its instance dict): enum members are process-wide singletons
+
+
+def install_enums():
+    """what the code under verification stores ON an enumeration member (a singleton shared by every call and every path) is
+    put back at the start of each path, like the other shared state"""
+    for name, mod in list(sys.modules.items()):
+        if mod is None or not name.startswith("okdmr.dmrlib") or ".tests" in name:
+            continue
+        for v in list(vars(mod).values()):
+            if isinstance(v, type) and issubclass(v, enum.Enum) and getattr(v, "__module__", None) == name:
+                for m in v:
+                    if not any(m is x for x, _ in ENUM_MEMBERS):
+                        ENUM_MEMBERS.append((m, dict(vars(m))))
+    return len(ENUM_MEMBERS)
+
+
+def reset_enums():
+    for m, snap in ENUM_MEMBERS:
+        d = vars(m)
+        if len(d) != len(snap) or any(k not in snap or d[k] is not snap[k] for k in d):
+            for k in [k for k in d if k not in snap]:
+                try:
+                    object.__delattr__(m, k)
+                except Exception:
+                    d.pop(k, None)
+            for k, val in snap.items():
+                if d.get(k, _MISSING) is not val:
+                    d[k] = val
+
+
 def reset_all():
     for d in ALL:
         d.reset()
     reset_bitarrays()
+    reset_enums()
     for c, snap in MUTABLE_DEFAULTS:
         if c != snap:
             if isinstance(c, list):
